@@ -20,7 +20,8 @@ RULE = ('GET_MESSAGE: all 256 flags x all 256 presence patterns (exhaustive); '
         'fields, wrong lengths, invalid key points; SIGN / SIGN_STACK / '
         'CHECK_SIG_STACK and in-VM sign-then-check. distinct = by full case; '
         'non-trivial = expected verdict True, or expected verdict differs '
-        'from that of the unperturbed parent')
+        'from that of the unperturbed parent'
+        ' [plus shuffled dict insertion order, one excluded field of 1000-9000 bytes, an item limit that is exactly the operands, and sign-in-one-run / check-in-another under a registered rewriting extension with all four checkers]')
 ASSUMPTIONS = [
     'libsodium called directly (nacl.bindings) is the fast Ed25519 oracle; it '
     'is cross-checked against a pure-Python RFC 8032 implementation on a '
